@@ -671,3 +671,20 @@ func popcount(x *Term, w int) *Term {
 	}
 	return sum
 }
+
+func init() {
+	// crypto/rand: each call yields a different concrete value (collision-free IDs);
+	// the randomness itself is not part of any property here.
+	reg("crypto/rand.Read", func(it *Interp, fr *frame, fn *ssa.Function, args []Value) Value {
+		it.impure("rand")
+		it.mstate.assumptions["crypto/rand.Read returns a distinct concrete value per call (ID collisions are outside the claim)"] = true
+		sl := args[0].(Slice)
+		n, _ := it.mstate.perPath["rand"].(int)
+		n++
+		it.mstate.perPath["rand"] = n
+		for i := range sl.a {
+			it.storeAt(&sl.a[i], mkBV(8, uint64((n*131+i*7)&0xff)))
+		}
+		return Tuple{mkInt(int64(len(sl.a))), Iface{}}
+	})
+}
